@@ -279,6 +279,23 @@ func runFault(res *core.Result, idA, idB *m.Address, j faultJob, baseline [2][][
 				applied = true
 				return [][]byte{append([]byte(nil), msg[:j.bytePos]...)}
 			}
+		case "truncate-fixlen":
+			// the last bytePos bytes are cut off and the 2-byte length prefix is made to fit again
+			if idx == j.msgIdx && j.bytePos+4 < len(msg) {
+				applied = true
+				mm := append([]byte(nil), msg[:len(msg)-j.bytePos]...)
+				mm[0], mm[1] = byte(len(mm)>>8), byte(len(mm))
+				return [][]byte{mm}
+			}
+		case "alter-then-original":
+			// the altered message is followed by the genuine one (an attacker who lets the original through after
+			// his own copy): the router must have given up at the altered one
+			if idx == j.msgIdx && j.bytePos < len(msg) {
+				applied = true
+				mm := append([]byte(nil), msg...)
+				mm[j.bytePos] ^= 1 << j.bit
+				return [][]byte{mm, msg}
+			}
 		case "drop":
 			if idx == j.msgIdx {
 				applied = true
@@ -337,7 +354,7 @@ func runFault(res *core.Result, idA, idB *m.Address, j faultJob, baseline [2][][
 		victim, far, vres = s.a, idB, s.ra
 	}
 	field := "structural"
-	if j.kind == "bitflip" {
+	if j.kind == "bitflip" || j.kind == "alter-then-original" {
 		var msg []byte
 		if j.msgIdx < len(baseline[j.dir]) {
 			msg = baseline[j.dir][j.msgIdx]
@@ -387,6 +404,13 @@ func runFault(res *core.Result, idA, idB *m.Address, j faultJob, baseline [2][][
 				}
 				res.Count("replays_answered_with_error_notice", 1)
 			}
+		}
+		if (j.kind == "bitflip" || j.kind == "alter-then-original" || j.kind == "truncate-fixlen") && vres.Done && !vres.BeforeCut && !reg {
+			// the statement says "aborts": the setup must end by the router's own decision when the altered message
+			// arrives, not sit there until somebody cuts the connection
+			res.Violate(fmt.Sprintf("handshake-not-aborted-after-altered-message:%s:%s", j.kind, msgNames[j.msgIdx]),
+				fmt.Sprintf("%s (%s): the router that received the altered message neither completed nor gave up; its setup only returned when the connection, on which nothing moved any more, was cut (err=%v)", j, field, vres.Err), wit)
+			return
 		}
 		if reg {
 			res.Violate(fmt.Sprintf("link-registered-after-fault:%s:%s", j.kind, msgNames[j.msgIdx]),
@@ -624,6 +648,14 @@ func run(c *core.Ctx) {
 				for pos := 0; pos < n; pos += step {
 					jobs = append(jobs, faultJob{class: fc, dir: d, msgIdx: mi, kind: "truncate", bytePos: pos})
 				}
+				for _, k := range []int{1, 2, 3, 8, 64} {
+					jobs = append(jobs, faultJob{class: fc, dir: d, msgIdx: mi, kind: "truncate-fixlen", bytePos: k})
+				}
+				for _, pos := range []int{2, 3, 6, 10, 20, n - 70, n - 30, n - 1} {
+					if pos >= 2 && pos < n {
+						jobs = append(jobs, faultJob{class: fc, dir: d, msgIdx: mi, kind: "alter-then-original", bytePos: pos, bit: uint(r.IntN(8))})
+					}
+				}
 				for _, kind := range []string{"drop", "duplicate", "swap", "replay-kept-state", "replay-restarted", "reflect"} {
 					if kind == "swap" && mi == 2 {
 						continue
@@ -633,6 +665,11 @@ func run(c *core.Ctx) {
 			}
 		}
 		impostor(res, r, idA, idB, idM, old, fc)
+	}
+	// a message that loses exactly its last byte (prefix adjusted): every handshake signs afresh, so repeating this
+	// walks through many different signature tails
+	for k := 0; k < c.Q(96, 1200); k++ {
+		jobs = append(jobs, faultJob{class: faultClasses[0], dir: wire.Dir(k % 2), msgIdx: (k / 2) % 3, kind: "truncate-fixlen", bytePos: 1, rep: 0})
 	}
 	universeMirror(res, core.RNG("c04/mirror"))
 	doubleDial(res, core.RNG("c04/doubledial"))
